@@ -837,6 +837,25 @@ def check_url(col, case, sub='urlsplit'):
             bad('params() = %r, expected last values %r' % (p1[1], last))
         if p2[1] != every:
             bad('params(collapse=False) = %r, expected %r' % (p2[1], every))
+        # the caller owns what params() returned: scribble over it (dict and
+        # value lists), then ask again - on this result object and on a
+        # fresh urlsplit of the same URL
+        for d in (p1[1], p2[1], p3[1]):
+            for v in d.values():
+                if isinstance(v, list):
+                    v.append('scribble')
+                    v.reverse()
+            d['scribble'] = ['x']
+        again = _split_both(url, dflt, allow, case.get('argstyle', 0))[0]
+        for rr in (r, again[1] if again[0] != 'err' else r):
+            q1 = _call(rr.params)
+            q2 = _call(rr.params, collapse=False)
+            if q1[0] == 'err' or q1[1] != last:
+                bad('params() after the caller modified an earlier result = '
+                    '%r, expected %r' % (q1[1], last))
+            if q2[0] == 'err' or q2[1] != every:
+                bad('params(collapse=False) after the caller modified an '
+                    'earlier result = %r, expected %r' % (q2[1], every))
     elif exp[3] == '':
         if p1[1] != {} or p2[1] != {}:
             bad('params() = %r / %r without a query' % (p1[1], p2[1]))
